@@ -328,6 +328,23 @@ def impl_canon_flatten(fck, sp, v):
   except Exception as e:
     return eerr(e) if type(e) in ERR else escaped('canonicalize(flatten)', e, _value_case(v))
 
+def impl_merge_all(vs):
+  _, hi = py()
+  try:
+    return [0, epv(hi.merge(copy.deepcopy(vs)))]
+  except Exception as e:
+    return eerr(e) if type(e) in ERR else escaped('merge', e, dict(kind='unencodable', shown=repr(vs)[:300]))
+
+def impl_transform(v, root, sel, inplace):
+  import pyglove as pg
+  vl, hi = py()
+  f = sel_fn(sel)
+  try:
+    out = hi.transform(copy.deepcopy(v), lambda p, x: pg.MISSING_VALUE if f(p, x) else x, vl.KeyPath(list(root)), inplace=bool(inplace))
+    return [5] if pg.MISSING_VALUE == out else [0, epv(out)]
+  except Exception as e:
+    return escaped('transform', e, _value_case(v))
+
 def impl_merge(d, s):
   _, hi = py()
   try:
@@ -1147,6 +1164,20 @@ def run(ctx):
       if rng.random() < 0.3: a, b = {'k': a, 'z': 1}, {'k': b}
     add([27, 0, epv(a), epv(b)], impl_merge(a, b), 'merge_tree', depth_of(a) >= 1 and depth_of(b) >= 1, dict(op='merge_tree', dest=repr(a)[:150], src=repr(b)[:150]))
 
+  for _ in range(ctx.scale(300, 4000)):
+    vs = [gen_flat_dict(rng, 1) if rng.random() < 0.5 else gen_value(rng, 2, 0.3) for _ in range(rng.randint(0, 3))]
+    if vs and rng.random() < 0.3: vs.insert(rng.randint(0, len(vs)), None)
+    out = impl_merge_all(vs)
+    ctx.hist('merge_outcomes', 'value' if out[0] == 0 else ['KeyError', 'ValueError', 'IndexError', 'TypeError'][out[1]] if out[1] < 4 else 'other')
+    add([29, [epv(x) for x in vs]], out, 'merge', len(vs) >= 2, dict(op='utils.merge', values=repr(vs)[:200]))
+  for v in values[:ctx.scale(300, 4000)]:
+    nodes = nodes_of(v)
+    sel = rng.choice([(0, [list(rng.choice(nodes)[0]) for _ in range(rng.randint(1, 3))]), (1,), (2,), (4,), (3,)])
+    root = gen_path(rng, maxlen=2) if rng.random() < 0.3 else []
+    if sel[0] == 0: sel = (0, [root + p for p in sel[1]])
+    inplace = rng.randrange(2)
+    add([30, epv(v), epath(root), esel(sel)], impl_transform(v, root, sel, inplace), 'transform', depth_of(v) >= 2,
+        dict(op='utils.transform', value=repr(v)[:200], drops=sel, root=root, inplace=bool(inplace)))
   model_outs = ctx.model_run(trees)
   lookup = {id(t): d for t, d in zip(trees, descrs)}
   ctx.compare('Hier.run / KeyPath.run vs value_location.py, hierarchical.py, pg.traverse, pg.query', trees, impls, model_outs, describe=lambda c: lookup.get(id(c)))
